@@ -249,6 +249,9 @@ def body():
             # DownloadBufferSize is configuration: small buffers make a backlog larger than the buffer an ordinary event
             for b in edge + rnd:
                 b["buf"] = rng.choice([1, 2, 3, 100])
+                # the node's own L1 info tree syncer may be behind the chain the GERs were injected from: the first look-ups of a
+                # GER find nothing yet (fewer than the retry limit of the syncer, 3 in this harness)
+                b["lag"] = rng.choice([0, 0, 1, 2])
         # (B) real code
         drv = V.build_driver("lastger")
         bf, tf = sc.path("beh.json"), sc.path("trace.ndjson")
@@ -257,7 +260,7 @@ def body():
         with open(tf, "w") as whole:
             for k in range(0, len(behs), CHUNK):
                 cf = sc.path("trace-%d.ndjson" % k)
-                json.dump([dict(ng=b["ng"], buf=b.get("buf", 0), steps=b["steps"]) for b in behs[k:k + CHUNK]], open(bf, "w"))
+                json.dump([dict(ng=b["ng"], buf=b.get("buf", 0), lag=b.get("lag", 0), steps=b["steps"]) for b in behs[k:k + CHUNK]], open(bf, "w"))
                 V.run_driver(drv, ["-in", bf, "-out", cf])
                 whole.write(open(cf).read())
                 os.remove(cf)
@@ -350,7 +353,7 @@ def body():
         res.coverage = dict(
             states=mc["distinct"], transitions=mc["generated"],
             traces_validated_against_impl=len(behs),
-            samples=[dict(ng=b["ng"], buf=b.get("buf", 0), steps=b["steps"]) for b in (behs[0], behs[n_reg + n_edge // 2] if len(behs) > n_reg + n_edge // 2 else behs[-1], behs[-1])],
+            samples=[dict(ng=b["ng"], buf=b.get("buf", 0), lag=b.get("lag", 0), steps=b["steps"]) for b in (behs[0], behs[n_reg + n_edge // 2] if len(behs) > n_reg + n_edge // 2 else behs[-1], behs[-1])],
             exhaustive=False,
             evaluations=nq, distinct_nontrivial=len(served),
             rule="behaviours = regression schedules (F2, F2b, candidate hole) + seeded sample of TLC's edge cover of LastGER.tla "
